@@ -15,6 +15,14 @@ TIERS = {
                          run_timeout=120, determinism=128, shrink_budget=240,
                          shrink_timeout=900),
     },
+    'C06': {
+        'quick': dict(runs=640, workers=16, batch_timeout=900,
+                      run_timeout=180, determinism=32, shrink_budget=90,
+                      shrink_timeout=400),
+        'thorough': dict(runs=40000, workers=16, batch_timeout=10800,
+                         run_timeout=300, determinism=128, shrink_budget=240,
+                         shrink_timeout=900),
+    },
 }
 
 COMMON_ASSUMPTIONS = [
@@ -88,6 +96,45 @@ META = {
             'subsets whose weights are all < 1e-280 are compared for NaN '
             'pattern only (sub-normal round-off)',
             'posterior samples lie in the valid region of the model',
+        ],
+    },
+    'C06': {
+        'rule': 'one run = one sampler session: the wrapped sampler entry '
+                'point (nestle.sample / pymultinest.run / '
+                'pypolychord.run_polychord) is a double that drives the prior '
+                'and likelihood callbacks of the real wrapper from a seeded op '
+                'list (prior-only calls, prior+likelihood, re-evaluation of '
+                'earlier points, cube corners, bursts aimed at invalid '
+                'atmospheres, armed contribution faults); every callback is '
+                'compared with an independent oracle (inverse CDFs; Gaussian '
+                'log-likelihood of a reference-binned fresh model set by '
+                'name); non-trivial = at least two likelihood callbacks; '
+                'distinct = distinct (sampler, fitted names, prior kinds, '
+                'run-length pattern of valid/invalid/fault callbacks)',
+        'probes': ['valid_right_after_invalid', 'repeated_point',
+                   'mixed_space_prior', 'obs_param_fitted', 'exact_fit_run'],
+        'real': ['NestleOptimizer/MultiNestOptimizer/PolyChordOptimizer '
+                 'compute_fit closures', 'Optimizer.compile_params / '
+                 'update_model / chisq_trans', 'taurex.core.priors',
+                 'ArraySpectrum, FluxBinner, NativeBinner',
+                 'TransmissionModel/EmissionModel with Absorption/CIA/Rayleigh, '
+                 'TaurexChemistry (InvalidChemistryException path)'],
+        'stub': ['nestle.sample, pymultinest.run, pypolychord.run_polychord '
+                 '-> session doubles (sim/samplers.py)',
+                 'toy analytic ForwardModel/BaseSpectrum (share of runs)',
+                 'FaultyContribution raising InvalidModelException when armed',
+                 'opacity data -> in-memory tables'],
+        'assumptions': COMMON_ASSUMPTIONS + [
+            'calling conventions of the absent libraries: MultiNest passes an '
+            'item-access-only cube and expects in-place prior writes; '
+            'PolyChord expects (logL, [derived]) and a returned list from the '
+            'prior',
+            'observation bins lie strictly inside the native range and are >= 2 '
+            'native spacings wide (binning unambiguous; reference binner agrees '
+            'with FluxBinner to 6e-16 on 300 such layouts)',
+            'likelihood tolerance 1e-10*|L|+1e-9; prior tolerance 1e-9',
+            'invalid atmospheres reachable here: sum of mixing ratios > 1, toy '
+            'limit, injected contribution faults',
         ],
     },
 }
